@@ -61,6 +61,20 @@ def jobs_for(max_files, max_stmts):
                 yield (combo, structured, lock, lv)
 
 
+COUNTS = list(range(1, 13)) + [15, 16, 17, 31, 32, 33, 63, 64, 65, 100, 127, 128, 129, 257]
+
+
+def count_jobs():
+    """Counts matter wherever work is batched or buffered: F files (each: missing, existing odd ID, missing) and S statements in one
+    file, for every count around small numbers and powers of two."""
+    for F in COUNTS:
+        combo = tuple((None, 2 * i + 1, None) for i in range(F))
+        yield combo
+    for S in COUNTS:
+        combo = (tuple(None for _ in range(S)), (7, None), tuple([None, 3] * 2))
+        yield combo
+
+
 def _run_batch(args):
     batch, work = args
     out = []
@@ -95,6 +109,14 @@ def run(tier, v):
     alljobs = list(jobs_for(mf, ms))
     if tier == "thorough":
         alljobs += [j for j in jobs_for(2, 3) if max(len(f) for f in j[0]) == 3]
+    ncount = 0
+    for combo in count_jobs():
+        existing = [x for f in combo for x in f if x is not None]
+        mx = max(existing)
+        for structured in (False, True):
+            for lock, lv in (("absent", None), ("disabled+misleading-lock", 1), ("max+1", mx + 1), ("max+5", mx + 5)):
+                alljobs.append((combo, structured, lock, lv))
+                ncount += 1
     batches = [(alljobs[k:k + 150], os.path.join(work, "b%d" % (k // 150))) for k in range(0, len(alljobs), 150)]
     for b in batches:
         os.makedirs(b[1])
@@ -108,7 +130,7 @@ def run(tier, v):
                 missing = sum(1 for f in combo for s in f if s is None)
                 start = lv if lock in ("max+1", "max+5", "u32max") else (mx + 1 if existing else 1)
                 must_fail = start + missing - 1 > U32
-                v.distinct((combo, structured, lock))
+                v.distinct((hash(combo), structured, lock))
                 outcomes.add((ex, len(new_ids), must_fail))
                 bad = []
                 if panicked or sig is not None or to:
@@ -128,7 +150,7 @@ def run(tier, v):
                 edge = "u32-edge" if (mx >= U32 - 1 or lock == "u32max") else "ordinary"
                 for b_ in bad:
                     v.violation("%s:%s:%s" % (b_, "lock-" + lock if lock not in ("absent",) else "no-lock", edge),
-                                {"tree": [list(f) for f in combo], "structured": structured, "lock": lock, "lock_value": lv, "exit": ex,
+                                {"tree": [list(f) for f in combo][:12], "files": len(combo), "structured": structured, "lock": lock, "lock_value": lv, "exit": ex,
                                  "signal": sig, "new_ids": new_ids, "existing": existing, "lock_after": lock_after, "stderr": err.decode("utf-8", "replace")},
                                 replay_files=dict({"proj/src/f%d.rs" % i: file_text(st, structured, i) for i, st in enumerate(combo)},
                                                   **{"proj/Breadlog.yaml": cli.config_yaml("./src", structured=structured, use_cache=(False if lock.startswith("disabled") else None))},
@@ -137,6 +159,7 @@ def run(tier, v):
     v.subspace("all trees with <= %d files x <= %d statements per file over reference states {none,0,1,2,7,2^32-2,2^32-1} with >= 1 missing, x style x "
                "lock {absent, disabled with misleading lock, max+1, max+5, 2^32-1}%s" % (mf, ms, "; plus 2 files x 3 statements" if tier == "thorough" else ""),
                len(alljobs), exhaustive=True)
+    v.subspace("count sweep: F files / S statements per file for every count in %r x style x lock" % COUNTS, ncount, exhaustive=True)
     v.coverage["distinct_outcomes(exit, ids inserted, range exhausted)"] = len(outcomes)
     v.sample({"tree": [[None, 7], [4294967295]], "style": "unstructured", "lock": "absent", "expect": "run fails; nothing out of range inserted"})
     v.sample({"tree": [[None], [2, None]], "style": "structured", "lock": "max+5", "expect": "two new distinct IDs, none in {2}"})
